@@ -81,7 +81,7 @@ LEVEL = {
     'C16': {'text': 'Theorems: copy-like commands never answer diff and answer not-exist only for a missing source; no success => existing destination untouched; comparison verdicts are ok/diff/err. '
                     'no panic is proved for fetch (every id, window, contents), view, view-raw, diff, sum and sum-diff on files whose archives are well-formed rings; for copy / sum-copy a panic can only '
                     'originate in the library batch update, and (C16_copy_never_panics) on every destination content a history of updates can produce it does not: copy / sum-copy end in success or an error. '
-                    'The whole fault matrix is run against the real commands.',
+                    'THE COMMAND LINE (Model/Args.v, compared with the real Parse of every subcommand by the cliargs operation): whatever the arguments, Execute only runs with an ordered window, 32-bit timestamps, a storable aggregation method, an archive list the retention parser accepts and every required option (C16_execute_runs_only_with_sound_options / _required_options); otherwise the invocation ends with status 2 (or 0 for -h). A -text-out target that cannot be opened or written never yields success. The whole fault matrix (incl. damaged files announcing more archives than fit a page, items of 66-90 files, negative generate bounds) is run against the real commands; an operation that does not return within 120 s is reported as a hang.',
             'design_ref': '5 C16',
             'note': _TB + 'A read-only destination directory cannot be exercised as root and is not part of the matrix.'},
     'C18': {'text': 'Theorems: view emits one record per slot of each selected series with instant from+k*step and the k-th fetched value, archive then time order; '
@@ -93,7 +93,7 @@ LEVEL = {
                     'layout validation accepts, every instant of the clock domain and all generated lists that are complete, the file generate leaves behind, read back archive by archive over the '
                     'whole retention, is exactly those lists (no empty slot, nothing left from propagation), under the requested header; what gen_ok accepts is bounded and sum-consistent. '
                     'gen_ok (Model/Generate.v, extracted) is evaluated on the lists of every real run: the command at the wall clock and the generator + per-archive write at explicit instants '
-                    '(aligned or not, last finer slot of a coarser interval, before and after 2^31) through the verif hook.',
+                    '(aligned or not, last finer slot of a coarser interval, before and after 2^31) through the verif hook. A bound of the random values that cannot be used (negative, or not below 2^31) is an error before the file is created (C20_unusable_bound_is_an_error; finding F14).',
             'design_ref': '5 C20',
             'note': _TB + 'math/rand is an oracle (its choices are inputs of the model); hook cmd/verif_hooks.go exposes randomPointsList / updateFileDataWithPointsList with explicit seed and clock.'},
     'C06': {'text': 'Theorems: file length = header + 12 per slot; big-endian header in the classic field order with archives contiguous; offsets of a validated header are the running sums; '
